@@ -1203,10 +1203,9 @@ theorem string_compare_gt (x y : String) : compare x y = .gt ↔ y < x := by
       exact he (String.le_antisymm (String.not_lt.1 hn) (String.not_lt.1 h))
 
 /-- the values the theorems speak about: integers, non-NaN floats, text that does not read as a
-number. With floats around (`fl`), the integers must convert to a double exactly (all of
-magnitude below 2^53 do), because the code compares an integer with a float as doubles. -/
+number (`fl`: floats occur at all). -/
 def okVal (fl : Bool) : Val → Bool
-  | .int i => !fl || exactInt i
+  | .int _ => true
   | .float b => fl && !isNaN b
   | .str s => (parseF64 s.toList).isNone
   | .null => false
@@ -1268,10 +1267,8 @@ theorem cmpAgg_lt_iff (fl : Bool) (a b : Val) (ha : okVal fl a = true) (hb : okV
       simp only [okVal, Option.isNone_iff_eq_none] at hb
       simp [cmpAgg, cmpIntStr, hb, specLt, numK, isStr]
     | float y =>
-      simp only [okVal, Bool.and_eq_true, Bool.not_eq_true'] at ha hb
-      have hx : exactInt x = true := by rcases hb with ⟨h1, _⟩; simpa [h1] using ha
-      simp only [cmpAgg, specLt, numK, hb.2, Bool.false_eq_true, if_false, decide_eq_true_eq]
-      rw [partialCmp_lt_iff _ _ (ofInt_not_nan x hx) hb.2, scaledF_ofInt x hx]
+      simp only [okVal, Bool.and_eq_true, Bool.not_eq_true'] at hb
+      simp [cmpAgg, cmpIntFloat, specLt, numK, hb.2, Int.compare_eq_lt]
   | str s =>
     simp only [okVal, Option.isNone_iff_eq_none] at ha
     cases b with
@@ -1288,9 +1285,9 @@ theorem cmpAgg_lt_iff (fl : Bool) (a b : Val) (ha : okVal fl a = true) (hb : okV
     cases b with
     | null => simp [okVal] at hb
     | int y =>
-      have hy : exactInt y = true := by simpa [okVal, ha.1] using hb
-      simp only [cmpAgg, specLt, numK, ha.2, Bool.false_eq_true, if_false, decide_eq_true_eq]
-      rw [partialCmp_lt_iff _ _ ha.2 (ofInt_not_nan y hy), scaledF_ofInt y hy]
+      simp only [cmpAgg, cmpIntFloat, ha.2, Bool.false_eq_true, if_false, Option.map_some, specLt, numK, decide_eq_true_eq]
+      cases hc : compare (y * 2 ^ 1074) (scaledF x) <;> simp [revOrdering] <;>
+        first | (have := Int.compare_eq_lt.1 hc; omega) | (have := Int.compare_eq_gt.1 hc; omega) | (have := Int.compare_eq_eq.1 hc; omega)
     | str t =>
       simp only [okVal, Option.isNone_iff_eq_none] at hb
       simp [cmpAgg, cmpFloatStr, hb, specLt, numK, ha.2, isStr]
@@ -1315,10 +1312,8 @@ theorem cmpAgg_gt_iff (fl : Bool) (a b : Val) (ha : okVal fl a = true) (hb : okV
       simp only [okVal, Option.isNone_iff_eq_none] at hb
       simp [cmpAgg, cmpIntStr, hb, specLt, numK]
     | float y =>
-      simp only [okVal, Bool.and_eq_true, Bool.not_eq_true'] at ha hb
-      have hx : exactInt x = true := by rcases hb with ⟨h1, _⟩; simpa [h1] using ha
-      simp only [cmpAgg, specLt, numK, hb.2, Bool.false_eq_true, if_false, decide_eq_true_eq]
-      rw [partialCmp_gt_iff _ _ (ofInt_not_nan x hx) hb.2, scaledF_ofInt x hx]
+      simp only [okVal, Bool.and_eq_true, Bool.not_eq_true'] at hb
+      simp [cmpAgg, cmpIntFloat, specLt, numK, hb.2, Int.compare_eq_gt]
   | str s =>
     simp only [okVal, Option.isNone_iff_eq_none] at ha
     cases b with
@@ -1335,9 +1330,9 @@ theorem cmpAgg_gt_iff (fl : Bool) (a b : Val) (ha : okVal fl a = true) (hb : okV
     cases b with
     | null => simp [okVal] at hb
     | int y =>
-      have hy : exactInt y = true := by simpa [okVal, ha.1] using hb
-      simp only [cmpAgg, specLt, numK, ha.2, Bool.false_eq_true, if_false, decide_eq_true_eq]
-      rw [partialCmp_gt_iff _ _ ha.2 (ofInt_not_nan y hy), scaledF_ofInt y hy]
+      simp only [cmpAgg, cmpIntFloat, ha.2, Bool.false_eq_true, if_false, Option.map_some, specLt, numK, decide_eq_true_eq]
+      cases hc : compare (y * 2 ^ 1074) (scaledF x) <;> simp [revOrdering] <;>
+        first | (have := Int.compare_eq_lt.1 hc; omega) | (have := Int.compare_eq_gt.1 hc; omega) | (have := Int.compare_eq_eq.1 hc; omega)
     | str t =>
       simp only [okVal, Option.isNone_iff_eq_none] at hb
       simp [cmpAgg, cmpFloatStr, hb, specLt, numK, ha.2]
@@ -1388,7 +1383,7 @@ theorem foldl_update_max (m : Option Val) (l : List Val) : l.foldl St.update (.m
   | cons v vs ih => simp [List.foldl_cons, St.update, ih]
 
 /-- hypothesis of the min / max theorems: every non-null value is an integer, a non-NaN float or
-text that does not read as a number; when floats occur the integers are exactly representable -/
+text that does not read as a number -/
 def minMaxOK (vs : List Val) : Bool := (nonNull vs).all (okVal ((nonNull vs).any isFloat))
 
 /-- P (3): over integers, floats and plain text the coded `min` is the first minimum of the
@@ -1573,9 +1568,9 @@ theorem minMaxOK_of_plain (vs : List Val) (h : (nonNull vs).all isPlain = true) 
   have := List.all_eq_true.1 h x hx
   cases x <;> simp_all [isPlain, okVal]
 
-/-- integers below 2^53 in magnitude, non-NaN floats and plain text: the domain in closed form -/
+/-- integers, non-NaN floats and plain text: the domain in closed form -/
 def isSmallNum : Val → Bool
-  | .int i => decide (i.natAbs < 2 ^ 53)
+  | .int _ => true
   | .float b => !isNaN b
   | .str s => (parseF64 s.toList).isNone
   | .null => false
@@ -1587,17 +1582,14 @@ theorem minMaxOK_of_small (vs : List Val) (h : (nonNull vs).all isSmallNum = tru
   have hs := h x hx
   cases x with
   | null => simp [isSmallNum] at hs
-  | int i =>
-    simp only [isSmallNum, decide_eq_true_eq] at hs
-    simp [okVal, exactInt_small i hs]
+  | int i => simp [okVal]
   | str s => simpa [okVal, isSmallNum] using hs
   | float b =>
     have : (nonNull vs).any isFloat = true := List.any_eq_true.2 ⟨_, hx, rfl⟩
     simpa [okVal, isSmallNum, this] using hs
 
 /-- W: the full statements are false. Text that reads as a number is compared as a number ("10" vs
-"9"); an integer of 2^53 or more is rounded before it is compared with a float (2^53 + 1 against
-the float 2^53 compare equal, so the first to arrive wins). -/
+"9"). -/
 theorem min_not_spec : ¬ ∀ vs : List Val, specAgg .min false vs = .ok (colAgg .min false vs) ∨ specAgg .min false vs = .any := by
   intro h
   exact absurd (h [.str "10", .str "9"]) (by decide +kernel)
@@ -1610,11 +1602,14 @@ theorem min_numeric_strings_witness :
     colAgg .min false [.str "10", .str "9"] = .str "9" ∧ specAgg .min false [.str "10", .str "9"] = .ok (.str "10") := by
   refine ⟨by decide +kernel, by decide +kernel⟩
 
-theorem min_big_int_float_witness :
-    colAgg .min false [.int (2 ^ 53 + 1), .float 0x4340000000000000] = .int (2 ^ 53 + 1) ∧
+/-- N: an integer that is not a double against a float: 2^53 + 1 and the float 2^53 compare by
+their exact values, in both arrival orders. -/
+theorem min_big_int_float_nonvacuous :
+    colAgg .min false [.int (2 ^ 53 + 1), .float 0x4340000000000000] = .float 0x4340000000000000 ∧
     specAgg .min false [.int (2 ^ 53 + 1), .float 0x4340000000000000] = .ok (.float 0x4340000000000000) ∧
-    colAgg .min false [.float 0x4340000000000000, .int (2 ^ 53 + 1)] = .float 0x4340000000000000 := by
-  refine ⟨by decide +kernel, by decide +kernel, by decide +kernel⟩
+    colAgg .max false [.float 0x4340000000000000, .int (2 ^ 53 + 1)] = .int (2 ^ 53 + 1) ∧
+    minMaxOK [.int (2 ^ 53 + 1), .float 0x4340000000000000] = true := by
+  refine ⟨by decide +kernel, by decide +kernel, by decide +kernel, by decide +kernel⟩
 
 /-- N: 10, 2.5, 7 with a null, in two arrival orders: the hypothesis holds, min is 2.5 and max is 10
 both times; 5 and 5.0 tie — the first to arrive is returned, and the specification does not choose. -/
@@ -2538,6 +2533,15 @@ theorem float_key_witness :
       [.int 4612811918334230528, .int 5, .int 4617315517961601024, .int 0, .int 0, .int (-9223372036854775808)] ∧
     keyOf [0] [Val.float 0] = [.float 0] := by
   refine ⟨by decide, by decide⟩
+
+/-- an integer was converted to a double before it was compared with a float:
+`(*a as f64).partial_cmp(b)` -/
+def cmpIntFloatCast (i : Int) (f : Nat) : Option Ordering := F64.partialCmp (ofInt i) f
+
+theorem cmpIntFloatCast_witness :
+    cmpIntFloatCast (2 ^ 53 + 1) 0x4340000000000000 = some .eq ∧
+    cmpIntFloat (2 ^ 53 + 1) 0x4340000000000000 = some .gt := by
+  refine ⟨by decide +kernel, by decide +kernel⟩
 
 end Old
 
